@@ -94,7 +94,7 @@ func (c *simConn) Prepare(q string) (driver.Stmt, error) {
 	}
 	return nil, fmt.Errorf("simsql: syntax error near %q", q)
 }
-func (c *simConn) Close() error              { return nil }
+func (c *simConn) Close() error { return nil }
 func (c *simConn) Begin() (driver.Tx, error) {
 	if c.inTx {
 		return nil, errors.New("simsql: transaction already open on this connection")
